@@ -290,6 +290,9 @@ func (ex *Exec) evalIdent(st *State, id *ast.Ident, sc *SpecCtx) *Val {
 			}
 			return ex.readVar(sc.old, o)
 		}
+		if sc != nil && ex.paramsAtEntry && sc.old != nil && ex.isOwnParam(o) {
+			return ex.readVar(sc.old, o)
+		}
 		return ex.readVar(st, o)
 	case *types.Func:
 		v := ex.freshVal(o.Type(), o.Name())
@@ -307,6 +310,26 @@ func (ex *Exec) evalIdent(st *State, id *ast.Ident, sc *SpecCtx) *Val {
 		return &Val{T: o.Type()}
 	}
 	return ex.freshVal(obj.Type(), id.Name)
+}
+
+// isOwnParam: o is a parameter (or the receiver) of the function under verification.
+func (ex *Exec) isOwnParam(o *types.Var) bool {
+	if ex.fn == nil || ex.fn.Obj == nil {
+		return false
+	}
+	sig, ok := ex.fn.Obj.Type().(*types.Signature)
+	if !ok {
+		return false
+	}
+	if r := sig.Recv(); r != nil && r == o {
+		return true
+	}
+	for i := 0; i < sig.Params().Len(); i++ {
+		if sig.Params().At(i) == o {
+			return true
+		}
+	}
+	return false
 }
 
 type oldKey struct{ o types.Object }
